@@ -42,6 +42,7 @@ Mk(sh, ws, vs, E) ==
      pos |-> [n \in 1..k |-> n - Start(sh, CHOOSE l \in 1..Layers : Start(sh, l) < n /\ n <= Start(sh, l) + sh[l]) - 1],
      ef |-> [i \in DOMAIN es |-> es[i][1]], et |-> [i \in DOMAIN es |-> es[i][2]],
      inl |-> [n \in 1..k |-> SelectSeq([i \in DOMAIN es |-> i], LAMBDA i : es[i][2] = n)],
+     outl |-> [n \in 1..k |-> SelectSeq([i \in DOMAIN es |-> i], LAMBDA i : es[i][1] = n)],
      layers |-> [l \in 1..Layers |-> NodesOfLayer(sh, l)]]
 \* helper nodes: the zero-width nodes of the inner layers
 Init == ready = FALSE /\ \E sh \in {s \in Shapes : K(s) <= MaxNodes} :
@@ -92,5 +93,40 @@ NSPosLeftmostZero == (ready /\ NSConn) => MinOf({NPX[n] : n \in 1..G.k}) = 0
 Alone(n) == Len(G.layers[G.layer[n] + 1]) = 1
 NSPosStraightensChains == (ready /\ NSConn /\ \A n \in 1..G.k : Alone(n)) => \A i \in DOMAIN G.ef : NPX[G.ef[i]] + G.w[G.ef[i]] = NPX[G.et[i]] + G.w[G.et[i]]
 Goal_NSPosBalanceMoves == (ready /\ NSConn) => NPD.rank = NP!Normalize(NPA.NN, NPB.rank)
+\* ---- the Brandes-Koepf positioner (BKOps) on the same graphs
+BK == INSTANCE BKOps
+BKM == BK!Marked(G)
+BKA(i) == BK!VerticalAlign(G, BKM, BK!Dirs[i][1], BK!Dirs[i][2])
+BKX == BK!FourLayouts(G, NS)
+BKF == BK!BKX2(G, NS, -1)
+\* the members of the block of root r, following the alignment pointers
+RECURSIVE BKChain(_, _, _)
+BKChain(A, r, w) == IF A.align[w] = r THEN <<w>> ELSE <<w>> \o BKChain(A, r, A.align[w])
+\* every block is a vertical chain: one node per layer, consecutive layers, joined by edges of the graph, and root[] names its first node
+BKBlocksAreChains == ready => \A i \in 1..4 : LET A == BKA(i) IN
+    \A r \in {n \in 1..G.k : A.root[n] = n} :
+        LET ch == BKChain(A, r, r)
+            step == IF BK!Dirs[i][1] = "bottom" THEN 1 ELSE -1
+        IN /\ \A j \in DOMAIN ch : A.root[ch[j]] = r
+           /\ \A j \in 1..(Len(ch) - 1) : /\ G.layer[ch[j + 1]] = G.layer[ch[j]] + step
+                                          /\ \E e \in DOMAIN G.ef : {G.ef[e], G.et[e]} = {ch[j], ch[j + 1]}
+BKEveryNodeInOneBlock == ready => \A i \in 1..4 : LET A == BKA(i) IN
+    \A n \in 1..G.k : LET ch == BKChain(A, A.root[n], A.root[n]) IN \E j \in DOMAIN ch : ch[j] = n
+\* aligned segments between the same two layers never cross, and never run along a marked (conflicting) edge
+BKSegs(A) == {<<n, A.align[n]>> : n \in {m \in 1..G.k : A.align[m] # A.root[m]}}
+BKAlignmentsDoNotCross == ready => \A i \in 1..4 : LET S == BKSegs(BKA(i)) IN \A s1, s2 \in S :
+    (G.layer[s1[1]] = G.layer[s2[1]] /\ G.pos[s1[1]] < G.pos[s2[1]]) => G.pos[s1[2]] < G.pos[s2[2]]
+\* with equal widths the classic guarantee holds: in each of the four layouts and in the final one neighbours are width + NS apart
+BKUniform == \A n, m \in 1..G.k : G.w[n] = G.w[m]
+BKUniformSeparated == (ready /\ BKUniform) => LET X == BKX  F == BKF IN
+    /\ \A i \in 1..4 : \A p \in AdjPairs : X[i][p[1]] + G.w[p[1]] + NS <= X[i][p[2]]
+    /\ \A p \in AdjPairs : F[p[1]] + 2 * G.w[p[1]] + 2 * NS <= F[p[2]]
+BKNonNegative == ready => LET F == BKF IN \A n \in 1..G.k : F[n] >= 0
+\* the final adjustment leaves no node starting inside its left neighbour
+BKNoStartInsideNeighbour == ready => LET F == BKF IN \A p \in AdjPairs : ~(F[p[2]] > F[p[1]] /\ F[p[2]] < F[p[1]] + 2 * G.w[p[1]])
+\* goal predicates: what the documentation warns about (sizes are ignored: overlaps and order inversions are reachable)
+Goal_BKOverlap == ready => LET F == BKF IN \A p \in AdjPairs : F[p[1]] + 2 * G.w[p[1]] <= F[p[2]]
+Goal_BKMarksSomething == ready => BKM = {}
+Goal_BKFallback == ready => BK!Verify(G, BK!Balance2(G, BKX), 2, NS)
 Goal_NarrowRightOfWide == ~(ready /\ \E p \in AdjPairs : G.w[p[1]] > G.w[p[2]] /\ G.w[p[2]] = 0)
 =============================================================================
